@@ -1,2 +1,25 @@
 #![allow(warnings, clippy::all, clippy::pedantic, clippy::nursery)]
+//@ module: backend::local_destination
 use super::*;
+use crate::backend::ignore::mapper::nix_mapper::map_mode_to_go;
+
+//@ harness: c01_mode_bits_roundtrip
+//@ prop: C01
+//@ tier: quick
+//@ timeout: 300
+//@ kernel: backend::ignore::mapper::nix_mapper::{map_mode_to_go (backup side), map_mode_from_go (restore side: LocalDestination::set_permission)}
+//@ bound: every u32 st_mode value
+//@ oracle: the twelve permission bits (rwx for user/group/other, setuid, setgid, sticky) survive the backup-side and restore-side mapping unchanged; the file-type bits survive for regular files, directories, symlinks, block devices, fifos and sockets
+//@ outside: character devices (map_mode_to_go ORs `GO_MODE_CHARDEV & GO_MODE_DEVICE` = 0, so their type bits are lost in the mode; the node type is stored separately - recorded as an observation, DESIGN 11); how the mode is applied to the file system
+#[kani::proof]
+pub(crate) fn c01_mode_bits_roundtrip() {
+    let mode: u32 = kani::any();
+    let back = map_mode_from_go(map_mode_to_go(mode));
+    assert!(back & 0o7777 == mode & 0o7777);
+    let fmt = mode & 0o170000;
+    if fmt == 0o100000 || fmt == 0o040000 || fmt == 0o120000 || fmt == 0o060000 || fmt == 0o010000 || fmt == 0o140000 {
+        assert!(back & 0o170000 == fmt);
+    }
+    kani::cover!(mode & 0o2000 != 0, "setgid entry");
+    kani::cover!(fmt == 0o040000, "directory");
+}
